@@ -176,33 +176,53 @@ def defaults_touch(ir, names):
 
 
 def default_nests_owner_type(ir):
-    """Some input field's default contains a literal of the field's own input type (the type's
-    field list would have to be complete before its own default can be coerced)."""
-    def contains(t, v, owner, depth=0):
-        if v is None or depth > 8:
-            return False
+    """Some input field's default contains a literal of the field's own input type, directly or through the
+    defaults of the types whose literals it contains: building the field list of T coerces the defaults of T's
+    fields, coercing a literal of X needs the field list of X, ... - a cycle in "a default of T contains a literal
+    of X" cannot be built by the library (known finding)."""
+    edges = {}
+
+    def literals(t, v, acc):
+        if v is None:
+            return
         if t[0] == "nonnull":
-            return contains(t[1], v, owner, depth)
+            return literals(t[1], v, acc)
         if t[0] == "list":
-            return any(contains(t[1], x, owner, depth) for x in (v if isinstance(v, list) else [v]))
+            for x in (v if isinstance(v, list) else [v]):
+                literals(t[1], x, acc)
+            return
         st = ir.types.get(t[1])
         if st is None or st.kind != "input":
-            return False
-        if st.name == owner:
-            return True
+            return
+        acc.add(st.name)
         if isinstance(v, dict):
             for f in st.input_fields:
-                if f.name in v and contains(f.type, v[f.name], owner, depth + 1):
-                    return True
-                if f.name not in v and f.has_default and contains(f.type, f.default, owner, depth + 1):
-                    return True
-        return False
+                if f.name in v:
+                    literals(f.type, v[f.name], acc)
 
     for t in ir.types.values():
-        for f in t.input_fields:
-            if f.has_default and contains(f.type, f.default, t.name):
+        if t.kind == "input":
+            acc = set()
+            for f in t.input_fields:
+                if f.has_default:
+                    literals(f.type, f.default, acc)
+            edges[t.name] = acc
+    # any cycle?
+    state = {}
+
+    def visit(n):
+        if state.get(n) == 1:
+            return True
+        if state.get(n) == 2:
+            return False
+        state[n] = 1
+        for m in edges.get(n, ()):
+            if visit(m):
                 return True
-    return False
+        state[n] = 2
+        return False
+
+    return any(visit(n) for n in list(edges))
 
 
 def strict_scalars(ir):
